@@ -9,7 +9,7 @@
    code as found. *)
 From Verif Require Import Base.GoSem Css.Token Css.Tok Css.Parse
   Css.TokProofs Css.SpecProofs Css.BlocksProofs Css.ParseProofs Css.DeclSpec Css.DeclProofs
-  Css.NthSpec Css.NthProofs Css.PosProofs.
+  Css.NthSpec Css.NthProofs Css.PosProofs Css.ContentsSpec Css.ContentsProofs.
 From Verif Require Css.Syntax3Spec.
 From Coq Require Import List NArith ZArith.
 Import ListNotations.
@@ -183,6 +183,80 @@ Theorem C06_declaration_spec : forall first rest nested, no_curly rest ->
   end.
 Proof. exact declaration_spec. Qed.
 Print Assumptions C06_declaration_spec.
+
+(* name, colon, value, flag AND the {} rule of the css-syntax draft ("a top-level
+   {}-block is only allowed as the entire value", evaluated after the removal of
+   "!important"): for EVERY token list, no hypothesis.  spec_declaration_draft =
+   spec_declaration + block_not_alone (Css/DeclSpec.v). *)
+Theorem C06_declaration_draft_spec : forall first rest nested,
+  match spec_declaration_draft first rest with
+  | DOk n v i => exists p, parse_declaration true first rest nested = CDeclaration p n v i
+  | DError => exists p, parse_declaration true first rest nested = CParseError p errInvalid
+  end.
+Proof. exact declaration_draft_spec. Qed.
+Print Assumptions C06_declaration_draft_spec.
+
+(* the code as found (before fix 7) accepted "a: {} x" and "a: ! {}" *)
+Theorem C06_declaration_block_rule_refuted_before_fix :
+  let p := mkPos 0 0 in
+  let a := TIdent p [97%N] in
+  let v1 := [TLiteral p [58%N]; TCurly p []; TIdent p [120%N]] in
+  let v2 := [TLiteral p [58%N]; TLiteral p [33%N]; TCurly p []] in
+  spec_declaration_draft a v1 = DError /\ spec_declaration_draft a v2 = DError /\
+  (exists n v i, parse_declaration false a v1 false = CDeclaration p n v i) /\
+  (exists n v i, parse_declaration false a v2 false = CDeclaration p n v i).
+Proof. exact declaration_block_rule_orig_deviates. Qed.
+Print Assumptions C06_declaration_block_rule_refuted_before_fix.
+
+Example C06_block_rule_examples :
+  let p := mkPos 0 0 in
+  block_not_alone [TWhitespace p [32%N]; TCurly p []; TWhitespace p [32%N]] = false /\
+  block_not_alone [TCurly p []; TIdent p [120%N]] = true /\
+  block_not_alone [TIdent p [120%N]] = false.
+Proof. repeat split; reflexivity. Qed.
+
+(* ------------------------------------------------------------------ ParseBlocksContents (css-syntax draft "consume a block's contents") *)
+(* Every item of a block's contents -- declaration, nested rule, at-rule, valid or
+   not -- ends exactly at its first ";" or {} block: whatever precedes the terminator
+   and whatever follows it, the result is the result for the part up to and including
+   the terminator followed by the result for the rest.  (Code as found and repaired.) *)
+Theorem C06_blocks_contents_compositional : forall fxp (skip_ws : bool) (a b : list token) (sep : token),
+  is_sep sep = true ->
+  exists oa ob,
+    parse_blocks_contents fxp (a ++ [sep]) skip_ws = Ok oa /\
+    parse_blocks_contents fxp b skip_ws = Ok ob /\
+    parse_blocks_contents fxp (a ++ sep :: b) skip_ws = Ok (oa ++ ob).
+Proof. exact blocks_contents_compositional. Qed.
+Print Assumptions C06_blocks_contents_compositional.
+
+(* ... and one item (first token, body without terminator, terminator or end of input)
+   is the declaration of the draft or, failing that, the nested qualified rule whose
+   prelude is the whole item / the parse error at the ";" / at the last token
+   (Css/ContentsSpec.v spec_item). *)
+Theorem C06_blocks_item_spec : forall first body term skip_ws,
+  is_sep first = false -> is_ws_or_comment first = false ->
+  (forall p kw, first <> TAtKeyword p kw) -> no_sep body ->
+  match term with Some t => is_sep t = true | None => True end ->
+  parse_blocks_contents true (first :: body ++ term_tokens term) skip_ws = Ok [spec_item first body term].
+Proof. exact blocks_contents_item. Qed.
+Print Assumptions C06_blocks_item_spec.
+
+Example C06_blocks_item_examples :
+  let p := mkPos 0 0 in
+  let a := TIdent p [97%N] in let colon := TLiteral p [58%N] in let b := TIdent p [98%N] in
+  let semi := TLiteral p [59%N] in let blk := TCurly p [b] in
+  (* "a:b;"  a declaration;  "a b;"  an error at the ";";  "a b{b}"  a nested rule;  "a:{b}"  a declaration;  "a:b{b}"  a nested rule *)
+  spec_item a [colon; b] (Some semi) = CDeclaration p [97%N] [b] false /\
+  spec_item a [b] (Some semi) = CParseError p errInvalid /\
+  spec_item a [b] (Some blk) = CQualifiedRule p [a; b] [b] /\
+  spec_item a [colon] (Some blk) = CDeclaration p [97%N] [blk] false /\
+  spec_item a [colon; b] (Some blk) = CQualifiedRule p [a; colon; b] [b] /\
+  is_sep semi = true /\ is_sep blk = true /\ no_sep [colon; b].
+Proof. repeat split; try reflexivity. repeat constructor. Qed.
+
+Theorem C06_blocks_contents_total : forall fxp l sw, exists o, parse_blocks_contents fxp l sw = Ok o.
+Proof. exact parse_blocks_contents_total. Qed.
+Print Assumptions C06_blocks_contents_total.
 
 (* ------------------------------------------------------------------ <an+b> (section 6) *)
 (* On token lists as the tokenizer produces them (identifiers and number
